@@ -19,7 +19,8 @@ CtxOps == { <<W("a")>>, <<W("b"), O("as"), W("c")>>, <<W("a"), O(":"), W("@T")>>
             <<W("a"), O(","), W("b")>>, <<W("h"), O("("), W("g"), O("("), W("y"), O(")"), O(")")>> }
 Laws == {"gt-vs-bang", "gt-with-context", "chain-assoc", "chain-nested", "chain-ctx", "call-as", "call-ctx-as",
          "dollar", "dollar-in", "call-eq", "in-gt-vs-bang", "in-chain-nested", "in-call-as", "in-chain-call-as", "in-call-eq",
-         "root-chain-call-as", "dollar-cat", "dollar-val", "dollar-match", "dollar-cat-val"}
+         "root-chain-call-as", "dollar-cat", "dollar-val", "dollar-match", "dollar-cat-val",
+         "call-as-eq", "call-as-match", "in-call-as-eq"}
 GT == <<O(">")>>  LPAR == <<O("(")>>  RPAR == <<O(")")>>  BANG == <<O("!")>>  COMMA == <<O(",")>>
 Lhs(law, fn, cap, ctx) ==
   CASE law = "gt-vs-bang"      -> fn \o GT \o cap
@@ -42,6 +43,9 @@ Lhs(law, fn, cap, ctx) ==
     [] law = "dollar-val"      -> fn \o LPAR \o <<O("$"), W("x")>> \o <<O("="), W("1")>> \o RPAR \o GT \o cap
     [] law = "dollar-match"    -> fn \o LPAR \o <<O("$"), W("x")>> \o <<O("~"), W("p"), O("("), W("3"), O(")")>> \o RPAR \o GT \o cap
     [] law = "dollar-cat-val"  -> fn \o LPAR \o ctx \o COMMA \o <<O("$"), W("x")>> \o <<O(":"), W("@T")>> \o <<O("="), W("1")>> \o RPAR \o GT \o <<W("y")>>
+    [] law = "call-as-eq"      -> fn \o LPAR \o ctx \o RPAR \o <<O("as"), W("r"), O("="), W("1")>>
+    [] law = "call-as-match"   -> fn \o LPAR \o ctx \o RPAR \o <<O("as"), W("r"), O("~"), W("p"), O("("), W("3"), O(")")>>
+    [] law = "in-call-as-eq"   -> <<W("h")>> \o LPAR \o <<W("q")>> \o COMMA \o fn \o LPAR \o ctx \o RPAR \o <<O("as"), W("r"), O("="), W("1")>> \o RPAR
 Rhs(law, fn, cap, ctx) ==
   CASE law = "gt-vs-bang"      -> fn \o LPAR \o BANG \o cap \o RPAR
     [] law = "gt-with-context" -> fn \o LPAR \o ctx \o COMMA \o BANG \o cap \o RPAR
@@ -63,6 +67,9 @@ Rhs(law, fn, cap, ctx) ==
     [] law = "dollar-val"      -> fn \o LPAR \o <<W("*"), O("as"), W("x")>> \o <<O("="), W("1")>> \o RPAR \o GT \o cap
     [] law = "dollar-match"    -> fn \o LPAR \o <<W("*"), O("as"), W("x")>> \o <<O("~"), W("p"), O("("), W("3"), O(")")>> \o RPAR \o GT \o cap
     [] law = "dollar-cat-val"  -> fn \o LPAR \o ctx \o COMMA \o <<W("*"), O("as"), W("x")>> \o <<O(":"), W("@T")>> \o <<O("="), W("1")>> \o RPAR \o GT \o <<W("y")>>
+    [] law = "call-as-eq"      -> fn \o LPAR \o ctx \o COMMA \o BANG \o <<W("#value"), O("as"), W("r")>> \o COMMA \o <<W("#value"), O("="), W("1")>> \o RPAR
+    [] law = "call-as-match"   -> fn \o LPAR \o ctx \o COMMA \o BANG \o <<W("#value"), O("as"), W("r")>> \o COMMA \o <<W("#value"), O("~"), W("p"), O("("), W("3"), O(")")>> \o RPAR
+    [] law = "in-call-as-eq"   -> <<W("h")>> \o LPAR \o <<W("q")>> \o COMMA \o fn \o LPAR \o ctx \o COMMA \o <<W("#value"), O("as"), W("r")>> \o COMMA \o <<W("#value"), O("="), W("1")>> \o RPAR \o RPAR
 VARIABLES law, fn, cap, ctx
 Init == law \in Laws /\ fn \in FnOps /\ cap \in CapOps /\ ctx \in CtxOps
 Next == UNCHANGED <<law, fn, cap, ctx>>
@@ -78,8 +85,8 @@ Focused(c) == IF c.k = "E" THEN (IF c.t1 THEN 1 ELSE 0)
                        SumC(i) == IF i = 0 THEN 0 ELSE fc(i) + SumC(i - 1)
                        SumK(i) == IF i = 0 THEN 0 ELSE fk(i) + SumK(i - 1)
                    IN SumC(Len(c.caps)) + SumK(Len(c.kids))
-RootLaws == {"gt-vs-bang", "gt-with-context", "chain-assoc", "chain-nested", "chain-ctx", "call-as", "call-ctx-as", "dollar", "dollar-in", "root-chain-call-as", "dollar-cat", "dollar-val", "dollar-match", "dollar-cat-val"}
+RootLaws == {"gt-vs-bang", "gt-with-context", "chain-assoc", "chain-nested", "chain-ctx", "call-as", "call-ctx-as", "dollar", "dollar-in", "root-chain-call-as", "dollar-cat", "dollar-val", "dollar-match", "dollar-cat-val", "call-as-eq", "call-as-match"}
 OneFocus == (~IsErr(L) /\ law \in RootLaws) => Focused(SelectOf(L)) = 1
 \* inside another call's parentheses 'f() as r' and 'f(b)=c' carry no focus; '>' and '!' carry exactly one
-InnerFocus == (~IsErr(L) /\ law \in {"in-call-as", "in-chain-call-as", "in-call-eq"}) => Focused(SelectOf(L)) = 0
+InnerFocus == (~IsErr(L) /\ law \in {"in-call-as", "in-chain-call-as", "in-call-eq", "in-call-as-eq"}) => Focused(SelectOf(L)) = 0
 =============================================================================
